@@ -733,6 +733,8 @@ Proof.
     destruct (i_wfS _ _ _ _ _ _ _ _ _ _ _ _ I id ds Gs) as (q & Hq & D1 & D2 & D3).
     assert (q = p) as -> by congruence.
     rewrite D1. cbn [negb Z.eqb UNDEF Pos.eqb].
+    destruct (epoch <=? p_start p) eqn:Ees.
+    { intros [= <- <-]. cbn. split; [exact I|auto]. }
     destruct (pdu_spec epoch _ S st id p ds I Hp Gs He) as (st2 & R & F & Pn).
     rewrite R.
     pose proof F as [_ _ _ _ _ _ Ffr]. destruct Ffr.
